@@ -356,6 +356,20 @@ def compare_ep(case, ep, rel, res1, res2, box1, box2, pads, atol_free, amp=1.0, 
             if not kk.any():
                 continue
         exp = epm.expected(k.kind, cb, rel, dx, dy)
+        if name in ('gaussian_params', 'gaussian_fwhm', 'gaussian_profile') and '_gfit' in out1 and '_gfit' in out2:
+            # iterative-fit end point: on a mismatch beyond 1e-8 ask whether both end points are minima of the same
+            # optimum to the fitter's own termination tolerance (epm.gfit_endpoints_equivalent); counted
+            ok_direct = core.same(co, exp, rtol, atol)[0]
+            if not ok_direct:
+                if '_gfit_arb' not in out1:
+                    out1['_gfit_arb'] = epm.gfit_endpoints_equivalent(out1['_gfit'], out2['_gfit'])
+                if out1['_gfit_arb'][0]:
+                    case.note('gaussian_fit_endpoints_differ_within_fitter_tolerance:' + name)
+                    continue
+                if out1['_gfit_arb'][0] is None:
+                    case.note('gaussian_fit_undecided_fitter_stopped_short_of_minimum:' + name)
+                    continue
+                mech['arbitration'] = 'failed'
         if isinstance(co, np.ndarray) and isinstance(exp, np.ndarray) and co.shape == exp.shape \
                 and co.dtype.kind == 'f' and not (np.array_equal(np.isnan(co), np.isnan(exp))
                                                   and np.array_equal(np.isposinf(co), np.isposinf(exp))
